@@ -148,6 +148,60 @@ def pairing_loops_examine_the_whole_set(ctx, RULE, P) -> None:
         raise AnalysisError("DirectorySnapshotDiff: no loop that takes its element out of a set was found (structure of the move pairing not recognised)")
 
 
+def category_kind_split(ctx, RULE, P) -> None:
+    ci = P.cls("DirectorySnapshotDiff")
+    ini = ci.methods.get("__init__")
+    if ini is None:
+        raise AnalysisError("anchor vanished: DirectorySnapshotDiff.__init__")
+    fns = [ini.node] + [fi.node for n_, fi in ci.methods.items() if n_ != "__init__"]
+    assigns: dict[str, list[ast.expr]] = {}
+    stores: dict[str, ast.expr] = {}
+    for fn in fns[:1]:
+        for n in ast.walk(fn):
+            if isinstance(n, (ast.Assign, ast.AnnAssign)):
+                tg = n.targets if isinstance(n, ast.Assign) else [n.target]
+                if getattr(n, "value", None) is None:
+                    continue
+                for t in tg:
+                    if isinstance(t, ast.Name):
+                        assigns.setdefault(t.id, []).append(n.value)
+                    elif isinstance(t, ast.Attribute) and isinstance(t.value, ast.Name) and t.value.id == "self":
+                        stores[t.attr] = n.value
+
+    def expand(e: ast.expr, depth: int = 0) -> str:
+        import copy as _copy
+
+        class T(ast.NodeTransformer):
+            def visit_Name(self, n):
+                vs = assigns.get(n.id, [])
+                if isinstance(n.ctx, ast.Load) and len(vs) == 1 and depth < 3 and not isinstance(vs[0], (ast.BinOp,)) and any(isinstance(x, ast.Attribute) and x.attr.startswith("_dirs_") for x in ast.walk(vs[0])):
+                    return ast.parse(expand(vs[0], depth + 1), mode="eval").body
+                return n
+
+        return ast.unparse(T().visit(_copy.deepcopy(e)))
+
+    decided = 0
+    for cat in ("created", "deleted", "modified", "moved"):
+        F = stores.get(f"_files_{cat}")
+        if F is None:
+            continue
+        txt = expand(F)
+        others = [c for c in ("created", "deleted", "modified", "moved") if c != cat and f"_dirs_{c}" in txt]
+        own = f"_dirs_{cat}" in txt
+        if not own and not others:
+            ctx.unresolved.append(f"DirectorySnapshotDiff._files_{cat} = {txt[:60]}: kind split not recognised")
+            continue
+        decided += 1
+        ctx.check(
+            not others,
+            RULE,
+            f"DirectorySnapshotDiff._files_{cat} leaves out the directories of `{cat}` only",
+            f"`_files_{cat}` is `{txt[:110]}`: the directories of {others} are subtracted as well, so a path of `{cat}` that is a directory in the other snapshot (an entry replaced by one of the other kind under the same name) is in neither list of `{cat}`: one entry of the difference gets no event",
+            f"{ci.module.relpath}:{F.lineno}",
+        )
+    ctx.count("kind_splits_decided", decided)
+
+
 def run(ctx) -> None:
     P = ctx.P
     RW = ctx.rule("C10/tolerant-walk-at-every-position", "for every listdir/stat call below the root, at every depth: ENOENT, ENOTDIR and EACCES are absorbed inside the snapshot constructor, within the iteration of the entry they concern (the entry is treated as absent, its siblings are still visited)", floor=6)
@@ -242,6 +296,12 @@ def run(ctx) -> None:
         floor=2,
     )
     pairing_loops_examine_the_whole_set(ctx, RPL, P)
+    RKP = ctx.rule(
+        "C10/each-category-splits-into-its-own-kinds",
+        "the file list of a category (created / deleted / modified / moved) is that category's set minus *that category's* directory list (or the complementary selection): subtracting the directories of another category as well drops a path that is a directory in one snapshot and a file in the other (replaced under the same name) from the file list, and its FileCreatedEvent / FileDeletedEvent is never delivered",
+        floor=0,
+    )
+    category_kind_split(ctx, RKP, P)
 
     # ---------------------------------------------------------------- polling emitter table
     pf = P.find_method("PollingEmitter", "queue_events")
